@@ -213,6 +213,8 @@ def c_lints(ctx, P, scope, rule="C-LINT", tus=None):
     lib_kind.alloc_domain(ctx, P, scope, tus=ltus)
     lib_kind.span_kind(ctx, P, None, scope, tus=ltus)
     lib_kind.shifted_index(ctx, P, scope, tus=ltus)
+    lib_kind.length_guard(ctx, P, scope, tus=ltus)
+    lib_kind.validate_before_mutate(ctx, P, scope, tus=[k for k in ltus if k in ('tables', 'trees')])
     return n
 
 
@@ -284,6 +286,28 @@ def map_two_pass(ctx, P, scope, rule="MAP-TWO-PASS", tus=None):
                                    "remap pass `%s` starts at row 0 or at a position fixed before any scan" % estr(x)[:70] if ok0 else
                                    "remap pass `%s` starts at `%s`, not at row 0: references held by the skipped rows keep their old ids"
                                    % (estr(x)[:60], estr(start) if start is not None else "?"))
+                # inside `if (v != TSK_NULL)` where v was loaded from a column at the counter, an id map is consulted at v
+                for x in walk(body):
+                    if x.k != "IfStmt" or len(x.kids) < 2 or x.kids[1] is None:
+                        continue
+                    c = strip(x.kids[0])
+                    if c is None or c.k != "BinaryOperator" or c.op != "!=" or estr(c.kids[1]) not in ("TSK_NULL", "-1"):
+                        continue
+                    v = strip(c.kids[0])
+                    if v is None or v.k != "DeclRefExpr" or v.ref == k:
+                        continue
+                    loaded_from_k = any(y.k == "BinaryOperator" and y.op == "=" and estr(y.kids[0]) == v.ref and strip(y.kids[1]) is not None
+                                        and strip(y.kids[1]).k == "ArraySubscriptExpr" and estr(strip(y.kids[1]).kids[1]) == k for y in walk(body))
+                    if not loaded_from_k:
+                        continue
+                    for y in walk(x.kids[1]):
+                        if y.k == "ArraySubscriptExpr" and re.search(r"map", estr(y.kids[0])) and not re.search(r"index_map", estr(y.kids[0])):
+                            n += 1
+                            okr = estr(y.kids[1]) != k
+                            ctx.ob(rule, "%s|ref-lookup|%s[%s]" % (fn.name, estr(y.kids[0]), v.ref), okr, tu.loc(y),
+                                   "`%s` inside `if (%s != TSK_NULL)`" % (estr(y), v.ref) if okr else
+                                   "`%s` is consulted at the row's own index `%s` inside `if (%s != TSK_NULL)`: the reference `%s` is the one "
+                                   "whose fate is being tested" % (estr(y), k, v.ref, v.ref))
                 if not writes:
                     continue
                 # locals assigned in the loop from a table row (`parent_ind = ind.parents[j]`)
